@@ -12,6 +12,7 @@ pub mod c16;
 pub mod e1;
 pub mod e2;
 pub mod e3;
+pub mod e7;
 pub mod junos;
 pub mod ev;
 pub mod exec;
@@ -36,6 +37,7 @@ pub fn dispatch(id: &str, tier: Tier, replay: Option<&str>, budget: Duration) ->
         let doc: serde_json::Value = serde_json::from_str(&text).expect("parse replay file");
         match id {
             "C05" | "C18" => e1::replay(id, &doc["case"], &mut report),
+            "C19" => e7::replay(&doc["case"], &mut report),
             _ => {
                 eprintln!("no replay for {id}");
                 return 2;
@@ -53,6 +55,7 @@ pub fn dispatch(id: &str, tier: Tier, replay: Option<&str>, budget: Duration) ->
         "C12" => c12::run(&mut report),
         "C13" => c13::run(&mut report),
         "C14" => c14::run(&mut report),
+        "C19" => e7::run(&mut report),
         _ => {
             eprintln!("unknown property {id}");
             return 2;
